@@ -1,5 +1,55 @@
 (** C30 — routing tables give loop-free shortest routes.  Property theorems only. *)
-From Akita Require Import Lib.Base C30.Model C30.ProofsMesh.
+From Akita Require Import Lib.Base C30.Model C30.ProofsMesh C30.ProofsLoop C30.ProofsFW.
+
+(** The in-place triple loop of [floydWarshall] is the textbook functional
+    recurrence: the returned table is [iterF n] of the initial cells, and the call
+    does not panic iff every node has at least one remote. *)
+Theorem c30_fw_is_functional : forall g t, floyd_warshall g = Some t ->
+  (forall i, i < length g -> nth i g [] <> []) /\
+  forall i j, i < length g -> j < length g ->
+    get t i j = iterF (length g) (fun a b => init_cell g (length g) a b) i j.
+Proof. intros g t H. exact (fw_functional g t H). Qed.
+Print Assumptions c30_fw_is_functional.
+
+(** For EVERY finite graph (remote lists over node indices; parallel links,
+    self loops and dangling remotes allowed): the distance the router computes
+    between two distinct nodes is the length of a shortest walk, or [2n] with a
+    nil next hop exactly when there is no walk at all. *)
+Theorem c30_fw_shortest : forall g t, floyd_warshall g = Some t ->
+  forall i j, i < length g -> j < length g -> i <> j ->
+    (dist t i j = inf (length g) /\ next t i j = None /\ ~ reachable g i j) \/
+    (dist t i j <= length g - 1 /\ walk g (length g) i j (dist t i j) /\
+     forall l, walk g (length g) i j l -> dist t i j <= l).
+Proof. intros g t H. exact (fw_shortest g t H). Qed.
+Print Assumptions c30_fw_shortest.
+
+(** The next hop towards a reachable node is a neighbour, reached through the
+    recorded port (position in the remote list), whose own distance is exactly
+    one less. *)
+Theorem c30_next_hop_descends : forall g t, floyd_warshall g = Some t ->
+  forall i j, i < length g -> j < length g -> i <> j -> reachable g i j ->
+  exists p v, next t i j = Some (p, v) /\ nth_error (nth i g []) p = Some v /\ v < length g /\
+              dist t v j + 1 = dist t i j.
+Proof. intros g t H. exact (next_hop_descends g t H). Qed.
+Print Assumptions c30_next_hop_descends.
+
+(** Following the tables hop by hop from any node reaches every reachable node
+    after exactly [dist] hops (a shortest path), every hop goes to a neighbour one
+    step closer, and no node is visited twice (loop-free). *)
+Theorem c30_route_loop_free_shortest : forall g t, floyd_warshall g = Some t ->
+  forall i j fuel, i < length g -> j < length g -> reachable g i j -> dist t i j <= fuel ->
+  let p := fw_path t fuel i j in
+  path_ok g t j i p /\ length p = dist t i j /\ last p i = j /\ NoDup (i :: p) /\
+  (forall l, walk g (length g) i j l -> i <> j -> length p <= l).
+Proof.
+  intros g t H i j fuel Hi Hj Hr Hd p.
+  destruct (fw_path_ok g t H j Hj fuel i Hi (or_intror Hr) Hd) as [Hp Hl]. fold p in Hp, Hl.
+  split; [exact Hp|]. split; [exact Hl|]. split; [eapply path_ok_last; exact Hp|].
+  split; [eapply path_ok_nodup; exact Hp|].
+  intros l Hw Hne. rewrite Hl.
+  destruct (fw_shortest g t H i j Hi Hj Hne) as [[_ [_ Hno]]|[_ [_ Hmin]]]; [contradiction|auto].
+Qed.
+Print Assumptions c30_route_loop_free_shortest.
 
 (** Mesh routing (meshRoutingTable.FindPort followed hop by hop): from every
     switch of the grid, towards every tile of the grid, the walk stays inside the
@@ -13,6 +63,40 @@ Theorem c30_mesh_manhattan : forall size cur dst fuel,
             last p cur = dst /\ descending size cur dst p.
 Proof. intros size cur dst fuel Hc Hd Hm. exact (mesh_route_spec size dst Hd fuel cur Hc Hm). Qed.
 Print Assumptions c30_mesh_manhattan.
+
+(** A connector reused for a new network behaves exactly like a fresh one, for
+    every earlier history: the routes of every network of a sequence are those a
+    fresh connector computes for that network alone. *)
+Theorem c30_reuse_equals_fresh : forall c nets,
+  build_networks true c nets = map (fun os => snd (build_network true conn_empty os)) nets.
+Proof.
+  assert (Hone : forall c os, build_network true c os = build_network true conn_empty os) by reflexivity.
+  intros c nets. revert c. induction nets as [|os r IH]; intro c; [reflexivity|].
+  cbn [build_networks map]. rewrite (Hone c os).
+  destruct (build_network true conn_empty os) as [c' out]. cbn [snd]. f_equal. apply IH.
+Qed.
+Print Assumptions c30_reuse_equals_fresh.
+
+(** Regression: before fix 45fd431d ([NewNetwork] kept [c.devices]) the second
+    network built with one connector panicked in [tableToRoute]. *)
+Theorem c30_reuse_old_refuted :
+  let net := [AddSwitch; ConnectDevice 0 1; ConnectDevice 0 1] in
+  build_networks false conn_empty [net; net] = [Some [[0; 1]]; None] /\
+  build_networks true conn_empty [net; net] = [Some [[0; 1]]; Some [[0; 1]]].
+Proof. vm_compute. split; reflexivity. Qed.
+Print Assumptions c30_reuse_old_refuted.
+
+(** Non-vacuity: a ring of four switches with two devices — reachable pairs,
+    a two-hop shortest route with a tie broken by the iteration order. *)
+Example c30_nonvacuous :
+  let ops := [AddSwitch; AddSwitch; AddSwitch; AddSwitch;
+              ConnectSwitches 0 1; ConnectSwitches 1 2; ConnectSwitches 2 3; ConnectSwitches 3 0;
+              ConnectDevice 0 1; ConnectDevice 2 1] in
+  let c := fst (apply_ops conn_empty ops) in
+  establish_route c = Some [[2; 0]; [0; 1]; [0; 2]; [1; 0]] /\
+  follow (c_sw c) [[2; 0]; [0; 1]; [0; 2]; [1; 0]] 8 0 1 = ([0; 1; 2], true) /\
+  exists t, floyd_warshall (graph_of c) = Some t /\ dist t 2 1 = 3 /\ fw_path t 9 2 1 = [3; 4; 1].
+Proof. cbv zeta. split; [vm_compute; reflexivity|]. split; [vm_compute; reflexivity|]. eexists. split; [vm_compute; reflexivity|]. split; vm_compute; reflexivity. Qed.
 
 Example c30_mesh_nonvacuous :
   in_box (4, 3, 2)%Z (3, 0, 1)%Z /\ in_box (4, 3, 2)%Z (0, 2, 0)%Z /\
